@@ -228,6 +228,8 @@ pub mod stark_testing;
 pub mod util;
 mod vanishing_poly;
 pub mod verifier;
+#[cfg(feature = "verif_hooks")]
+pub mod verif_hooks;
 
 #[cfg(test)]
 pub mod fibonacci_stark;
